@@ -423,6 +423,40 @@ def run(ctx):
                        f'earlier iteration already gave to another label is taken again, so that '
                        f'label ends below its target count', f'{raf.module.relpath}:{n.lineno}')
     ctx.floor('R20f', 'label-assignment sites', n_sites, 2)
+    # ---- R20k: the shares are channel counts only under hard sampling ------------------------
+    # theta_alpha.mean(dim=1) is (channels at the precision) / (channels) only when every column
+    # is one-hot: the function must switch the model to hard sampling and run a forward pass
+    # (which re-samples) before it reads a cost or a coefficient
+    model = ('param', fn.params[0])
+    n_k = 0
+    for p in returning(paths(repo, fn)):
+        i_hard = i_fwd = i_read = None
+        for i, e in enumerate(p.events):
+            if e.kind != 'call':
+                continue
+            t = e.data[0]
+            mc = method_call(t)
+            if mc and mc[0] == model and mc[1] == 'update_softmax_options' and i_hard is None:
+                hard = dict(mc[3]).get('hard', mc[2][1] if len(mc[2]) > 1 else None)
+                if hard == ('const', True):
+                    i_hard = i
+            elif t[1] == model and i_hard is not None and i_fwd is None:
+                i_fwd = i
+            elif i_read is None and (mentions(t, lambda y: y[0] == 'attr' and y[2] == 'theta_alpha')
+                                     or (mc and mc[1] == 'get_cost')):
+                i_read = i
+        if i_read is None:
+            continue
+        n_k += 1
+        ok = i_hard is not None and i_fwd is not None and i_hard < i_fwd < i_read
+        ctx.ob('R20k', 'optimize_prec_assignment forces hard sampling before reading shares', ok,
+               'update_softmax_options(hard=True), then a forward pass, then the first read'
+               if ok else
+               'the coefficients / costs are read without update_softmax_options(hard=True) '
+               'followed by a forward pass: with soft sampling theta_alpha.mean(dim=1) is not a '
+               'channel count, so the "channels" that are moved and re-assigned do not exist',
+               where(fn))
+    ctx.floor('R20k', 'paths that read the coefficients', n_k, 1)
     # ---- R20j: candidates are priced like the model prices itself ---------------------------
     # _compute_cost fills entry (i, j) = theta_in[i] * share[j] * cost_fn(spec i, j) for EVERY
     # pair: an entry skipped under a threshold on the share is priced 0 by the refinement but
